@@ -12,6 +12,7 @@ import (
 	"fmt"
 	"net/http/httptest"
 	"regexp"
+	"sort"
 	"strings"
 	"time"
 
@@ -23,6 +24,7 @@ import (
 	"github.com/google/mtail/internal/zverif/vlib"
 	"github.com/google/mtail/internal/zverif/vrt"
 	"github.com/prometheus/client_golang/prometheus"
+	dto "github.com/prometheus/client_model/go"
 )
 
 func src(v string) string {
@@ -112,11 +114,31 @@ var activities = []activity{
 		ch := vrt.MkU(make(chan prometheus.Metric, 1))
 		done := vrt.MkU(make(chan struct{}, 1))
 		vrt.Go(func() {
+			var seen []string
 			for {
-				if _, ok := <-vrt.R(ch); !ok {
+				m, ok := <-vrt.R(ch)
+				if !ok {
 					break
 				}
+				var d dto.Metric
+				if err := m.Write(&d); err != nil {
+					continue
+				}
+				var ls []string
+				for _, lp := range d.Label {
+					ls = append(ls, lp.GetName()+"="+lp.GetValue())
+				}
+				sort.Strings(ls)
+				desc := m.Desc().String()
+				if i := strings.Index(desc, `fqName: "`); i >= 0 {
+					desc = desc[i+9:]
+					if j := strings.Index(desc, `"`); j >= 0 {
+						desc = desc[:j]
+					}
+				}
+				seen = append(seen, desc+"{"+strings.Join(ls, ",")+"}")
 			}
+			w.outs["prom"] = strings.Join(seen, "\n")
 			close(vrt.Cl(done))
 		})
 		w.e.Collect(ch)
@@ -158,6 +180,12 @@ var activities = []activity{
 		}
 		p2.Line("f", "a 1")
 	}},
+	// the program deletes the two tuples at the front of the metric (started after every reader, so that with no
+	// deviation at all it runs whenever the reader first blocks)
+	{"D", func(w *world) {
+		w.p.Line("f", "del z")
+		w.p.Line("f", "del y")
+	}},
 }
 
 var varzC = regexp.MustCompile(`(?m)^c\{k=a,prog=prog,[^}]*\} (\d+)$`)
@@ -173,7 +201,7 @@ func main() {
 	n := len(activities)
 	for i := 0; i < n; i++ {
 		for j := i; j < n; j++ {
-			if i == j {
+			if i == j || (activities[i].name == "V" && activities[j].name == "D") {
 				continue // one VM is driven by one goroutine; two reloads of one program are serialised by the loader
 			}
 			scens = append(scens, scen{activities[i].name + "|" + activities[j].name, []int{i, j}})
@@ -241,6 +269,22 @@ func main() {
 					for _, pr := range []string{"before", "prog", "zafter"} {
 						if n := strings.Count(out, "c{k=a,prog="+pr+","); n != 1 {
 							return fmt.Sprintf("export-pass %s varz prog=%s x%d", s.name, pr, n), fmt.Sprintf("one /varz pass lists the series c{k=a} of program %q %d times (the store holds it once):\n%s", pr, n, out), "bad-export-pass"
+						}
+					}
+				}
+				if out, ok := w.outs["prom"]; ok {
+					cnt := map[string]int{}
+					for _, l := range strings.Split(out, "\n") {
+						cnt[l]++
+					}
+					for l, n := range cnt {
+						if n > 1 && l != "" {
+							return fmt.Sprintf("export-pass %s prometheus duplicate", s.name), fmt.Sprintf("one Collect pass produced the series %s %d times:\n%s", l, n, out), "bad-export-pass"
+						}
+					}
+					for _, pr := range []string{"before", "prog", "zafter"} {
+						if n := cnt["c{k=a,prog="+pr+"}"]; n != 1 {
+							return fmt.Sprintf("export-pass %s prometheus prog=%s x%d", s.name, pr, n), fmt.Sprintf("one Collect pass lists the series c{k=a} of program %q %d times (it exists throughout):\n%s", pr, n, out), "bad-export-pass"
 						}
 					}
 				}
